@@ -51,7 +51,17 @@ CHECKS["C02"] = dict(level="model_checking", design="4/C02", engine="bmc", techn
 CHECKS["C05"] = dict(level="model_checking", design="4/C05", engine="bmc", technique=BMC,
    text="Decided by z3 over all interleavings of the FunctorMap parent loop with its worker processes and all n<=N: output == map(f, data) in order, queues free of payload afterwards, no deadlock, bounded execution; a second call on the same FunctorMap is independent.",
    note="Trusted: z3, VM, primitive contracts (multiprocessing.Queue as atomic bounded FIFO). Bounds: quick n<=2, workers<=2, chunk<=2, one 2-call configuration; thorough n<=3. mul_p_map itself is not encoded yet (same protocol).")
-NOT_YET = {}
+CHECKS["C03"] = dict(level="model_checking", design="4/C03, 6", engine="bmc", technique=BMC,
+   text="PARTIAL claim. Plain FunctorPool: induction over calls decided by z3 with a symbolic schedule - from every state satisfying the inter-call invariant (symbolic stale _data_cnt, symbolic number of stale payload-free tokens in the results queue, _sending_work False, work queue empty, idle workers) ONE imap / imap_unordered call yields exactly its own results, cannot deadlock, is bounded, and re-establishes the invariant; hence call sequences of any length. NOT decided: the FactoryFunctorPool half (quota retirement, ReplaceWorkerThread, stale stop tokens) - worker replacement is not encoded.",
+   note="Trusted: as C01 plus the stated inter-call invariant (a worker that still holds the results lock after its last put is not represented). Bounds: 1 worker, n<=1, <=1 stale token (quick); n<=2, 2 workers, results bound 1 (thorough).")
+CHECKS["C04"] = dict(level="model_checking", design="4/C04, 6", engine="bmc", technique=BMC,
+   text="PARTIAL claim. Plain FunctorPool with harness workers carrying ghost monitors and solver-chosen faults (begin() raises / functor raises): decided by z3 over all interleavings, n<=N and fault choices that begin() runs once before any item, no item after end(), until_all_ready() returns only after every begin() completed, a worker with quota k processes at most k chunks, every terminated worker has begin_calls == end_calls == 1 (also in raising runs), and no worker is running after the pool context. NOT decided: lifecycle of REPLACED workers of FactoryFunctorPool (not encoded).",
+   note="Trusted: as C01; monitors are ghost state (not schedulable steps). Bounds: 1 worker, n<=1, quota none/1 (quick); 2 workers, n<=2 (thorough).")
+NOT_YET = {
+ "C13": "escaping behaviour lives in the C extensions _json/_csv: CrossHair realises every value at that boundary (sampling, not this technique) and csv has no Python source to encode; the repository-owned record-file layering is exercised inside C11/C12 with an identity record class (DESIGN.md section 6)",
+ "C14": "needs per-process attribute copies at fork, shared open-file descriptions, multiprocessing.Value/RLock/manager-list and file primitives in the Engine C bytecode VM; these primitives are not implemented, so the code cannot be encoded within reach (DESIGN.md section 6)",
+ "C18": "needs fork semantics of file descriptions and pids (shared offsets between parent and children) in the Engine C VM; not implemented, code not encodable within reach (DESIGN.md section 6)",
+}
 def main():
     props = [json.loads(l)["id"] for l in open(os.path.join(ROOT, "properties.jsonl"))]
     checks = []
